@@ -254,7 +254,6 @@ fn do_subscribe_empty(conn: &mut Conn<'_, '_>) -> Res {
         Some(Ok(_)) => Res::OkOp,
         Some(Err(e)) => map_err(e),
     };
-    with(|w| w.expect = None);
     r
 }
 
@@ -269,7 +268,6 @@ fn do_unsubscribe_empty(conn: &mut Conn<'_, '_>) -> Res {
         Some(Ok(_)) => Res::OkOp,
         Some(Err(e)) => map_err(e),
     };
-    with(|w| w.expect = None);
     r
 }
 
